@@ -6,6 +6,7 @@ use crate::runner::{self, Exec, Stats};
 pub fn make_case(prop: &str, seed: u64, run: u64, stats: &mut Stats) -> Option<Case> {
     match prop {
         "C16" | "C17" | "C18" | "C20" => runner::make_case(prop, seed, run, stats),
+        "C19" => crate::c19::make_case(seed, run, stats),
         _ => None,
     }
 }
